@@ -119,6 +119,9 @@ void vf_stall_release(void);
 void vf_stall_reset(void);
 /* a second, independent failpoint (slot 1) with the same semantics */
 void vf_stall2_arm(const char *func, int op, int phase, uint64_t max_ns);
+/* after arming: let the first n matches of this thread pass */
+void vf_stall_skip(int n);
+void vf_stall2_skip(int n);
 bool vf_stall2_reached(void);
 void vf_stall2_release(void);
 
